@@ -1,15 +1,9 @@
-(* Tie (C20): literal fragments, block sizes, span format, the 17-colour whitelist and the default
-   palette extracted from the source equal the model's. *)
+(* Tie (C20): the 17-colour whitelist and the default palette extracted from the source equal the model's
+   (the rendering loop itself: minipy_html_tie.v). *)
 From Coq Require Import List Bool String.
 From LC Require Import Core.Residue Model.Html Gen.GSeq Gen.GTables.
 Import ListNotations.
 Local Open Scope string_scope.
-
-Lemma html_fragments_tie :
-  g_html_header = header /\ g_html_footer = footer /\
-  g_html_span_format = "%s<span style=""color:%s"">%s</span>" /\
-  g_html_blocks = [(10%nat, " "); (50%nat, "<br>")].
-Proof. repeat split. Qed.
 
 Lemma colours_tie : g_colours = colours17.
 Proof. reflexivity. Qed.
